@@ -15,7 +15,9 @@ theorem classifyData_not_header (o : Oracle) (proposer bs : Bytes) (sh : SignedH
   · simp
   · split
     · simp
-    · split <;> simp
+    · split
+      · simp
+      · split <;> simp
 
 theorem admit_selfconsistent_partial (o : Oracle) (proposer bs : Bytes) (sh : SignedHeader)
     (h : classify o proposer bs = .hdrAccepted sh) :
@@ -52,12 +54,14 @@ theorem admit_data_selfconsistent_partial (o : Oracle) (proposer bs : Bytes) (sd
     · simp at h
     · rename_i hne
       split at h
-      · rename_i hv
-        have : x = sd := by simpa using h
-        subst this
-        simp [validSignedData] at hv
-        refine ⟨hv.1.1, hv.1.2, hv.2, ?_⟩
-        intro he; simp [he] at hne
       · simp at h
+      · split at h
+        · rename_i hv
+          have : x = sd := by simpa using h
+          subst this
+          simp [validSignedData] at hv
+          refine ⟨hv.1.1, hv.1.2, hv.2, ?_⟩
+          intro he; simp [he] at hne
+        · simp at h
 
 end Spec.C03
